@@ -373,6 +373,51 @@ def _parse_case(req, c):
 
 
 # --------------------------------------------------------------------------
+# history: URLInfo.parse is memoised (functools.lru_cache) and its results are handed around the crawler (URL rewriter, filters,
+# processors).  Normalisation must be a function of the string: whatever other code did with earlier results, parsing the same
+# string again (cache hit or not) gives the same normalised URL and components.
+# --------------------------------------------------------------------------
+def _components(i):
+    return [i.url, i.scheme, i.hostname, i.port, i.path, i.query, i.fragment]
+
+
+def mode_history(req):
+    from wpull.urlrewrite import URLRewriter
+    urls = [un6(u) for u in req['urls']]
+    fresh = []
+    for u in urls:
+        try:
+            fresh.append(_components(parse_fresh(u)))
+        except Exception as e:
+            fresh.append(['ERR', type(e).__name__])
+    bad = []
+    for batch_start in range(0, len(urls), 60):            # within the 128 entries of the cache
+        batch = list(range(batch_start, min(len(urls), batch_start + 60)))
+        URLInfo.parse.cache_clear()
+        rewriters = [URLRewriter(hash_fragment=True, session_id=True), URLRewriter(hash_fragment=True), URLRewriter(session_id=True)]
+        for k in batch:
+            try:
+                i = URLInfo.parse(urls[k])
+            except Exception:
+                continue
+            for rw in rewriters:                            # what the crawler does with a parsed link
+                try:
+                    j = rw.rewrite(i)
+                    j.url, j.to_dict(), j.hostname_with_port, j.query_map
+                except Exception:
+                    pass
+        for k in batch:
+            try:
+                again = _components(URLInfo.parse(urls[k]))
+            except Exception as e:
+                again = ['ERR', type(e).__name__]
+            if again != fresh[k]:
+                bad.append({'url': req['urls'][k], 'fresh': fresh[k], 'after_history': again})
+    URLInfo.parse.cache_clear()
+    return {'bad': bad, 'checked': len(urls)}
+
+
+# --------------------------------------------------------------------------
 # helper functions, one by one (component correspondence)
 # --------------------------------------------------------------------------
 def mode_components(req):
@@ -552,7 +597,7 @@ def main():
     req = json.load(sys.stdin)
     sys.setrecursionlimit(3000)
     mode = req.get('mode', 'parse')
-    res = {'parse': mode_parse, 'components': mode_components, 'sample': mode_sample,
+    res = {'history': mode_history, 'parse': mode_parse, 'components': mode_components, 'sample': mode_sample,
            'consts': mode_consts}[mode](req)
     print(json.dumps(res))
 
